@@ -28,3 +28,38 @@ Proof. reflexivity. Qed.
 Theorem C14_both_routes_are_one_composite_partial : forall st x y w h src o st', fill_rect st x y w h src o = Ok st' -> effect st st'.
 Proof. exact fill_rect_effect. Qed.
 Print Assumptions C14_both_routes_are_one_composite_partial.
+
+(* ---- the missing half: an integer rectangle rasterises to full coverage (FillProofs.v) ---- *)
+Require Import RQ.Raster RQ.RasterProofs RQ.PremulDraw RQ.FillProofs.
+
+(* (5) fill_rect's two routes agree: for an integer rectangle of positive size (coordinates below 2^22 in magnitude, any
+   position relative to the surface), identity transform, no clip and no layer, all 28 blend modes, every source, any
+   alpha, antialiasing on or off: if the integer fast route and the fill of PathBuilder::rect both return, they leave the
+   same pixels *)
+Theorem C14_fill_rect_routes_agree_partial : forall st x y w h src o stF stG,
+  plain_dt st -> Forall px_ok (d_buf st) -> source_ok src ->
+  d_ctm st = xf_identity -> 0 <= d_w st -> 0 < d_h st ->
+  rz (d_cur st) = rast_new (d_w st) (d_h st) ->
+  let ix := to_i32 x in let iy := to_i32 y in let iw := to_i32 w in let ih := to_i32 h in
+  0 < iw -> 0 < ih ->
+  Z.abs ix < 4194304 -> Z.abs iy < 4194304 -> Z.abs iw < 4194304 -> Z.abs ih < 4194304 ->
+  Z.abs (ix + iw) < 4194304 -> Z.abs (iy + ih) < 4194304 ->
+  fill_rect st x y w h src o = Ok stF ->
+  fill st (rect_path x y w h) src o = Ok stG ->
+  d_buf stF = d_buf stG.
+Proof. exact fill_rect_routes_agree_integer. Qed.
+Print Assumptions C14_fill_rect_routes_agree_partial.
+
+(* (6) and for the 24 separable blend modes both routes do return *)
+Theorem C14_fill_rect_routes_total_partial : forall st x y w h src o,
+  plain_dt st -> Forall px_ok (d_buf st) -> source_ok src -> In (o_blend o) separable_modes ->
+  d_ctm st = xf_identity -> 0 <= d_w st -> 0 < d_h st ->
+  rz (d_cur st) = rast_new (d_w st) (d_h st) ->
+  let ix := to_i32 x in let iy := to_i32 y in let iw := to_i32 w in let ih := to_i32 h in
+  0 < iw -> 0 < ih ->
+  Z.abs ix < 4194304 -> Z.abs iy < 4194304 -> Z.abs iw < 4194304 -> Z.abs ih < 4194304 ->
+  Z.abs (ix + iw) < 4194304 -> Z.abs (iy + ih) < 4194304 ->
+  exists stF stG,
+    fill_rect st x y w h src o = Ok stF /\ fill st (rect_path x y w h) src o = Ok stG /\ d_buf stF = d_buf stG.
+Proof. exact fill_rect_routes_total. Qed.
+Print Assumptions C14_fill_rect_routes_total_partial.
